@@ -362,7 +362,7 @@ Fixpoint pause_loop (fuel : nat) (s : ebb3) (n : Z) (sc : script) (w : list text
       match o with Raise e => (s1, Raise e, w ++ w1, sc1) | Ret _ => pause_loop f s1 (n - d) sc1 (w ++ w1) end
   end.
 Definition timed_pause (s : ebb3) (n : Z) (sc : script) : res rv :=
-  guarded s RNone sc (fun _ => pause_loop (Z.to_nat (n / 750 + 2)) s n sc []).
+  guarded s RNone sc (fun _ => pause_loop (S (Z.to_nat (n / 750 + 1))) s n sc []).      (* fuel: one more than the number of chunks, at least 1 (n <= 0 sends nothing) *)
 
 Definition xy_move (s : ebb3) (dx dy dur : Z) := simple_cmd s (cat [T "SM,"; str_of_Z dur; T ","; str_of_Z dy; T ","; str_of_Z dx]).
 Definition abs_move (s : ebb3) (rate : Z) (p1 p2 : option Z) :=
